@@ -15,6 +15,7 @@
 From Coq Require Import List NArith Arith.
 From C01 Require Import Model Proofs Proofs2 Proofs4 Proofs6 Proofs7 CaseDefs Witness.
 From C01 Require Import ModelMulti ProofsM4 ProofsM5 WitnessMulti.
+From C01 Require Import ModelIntr ProofsX1 ProofsX2 WitnessIntr.
 Import ListNotations.
 
 (* The store always comes back up: no history makes a start-up (or anything else) fail — replay
@@ -352,4 +353,148 @@ Proof.
   split; [exact wm_wf |]. split; [exact wm_wf2 |]. split; [exact A |]. split; [exact wm_both_forms |].
   split; [exact B1 |]. split; [exact B2 |]. split; [exact B3 |]. split; [exact C1 |]. split; [exact C3 |].
   split; [exact D1 | exact D2].
+Qed.
+
+(* ====================== interrupted start-ups (ModelIntr.v) ======================
+
+   Reading aid.  cmd/seq-db hands a signal context (SIGINT/SIGTERM) to NewStore -> FracManager.Load ->
+   loader.load -> Active.Replay; Replay polls it once per meta block. `XStartIntr k` / `MXStartIntr k` = (kill
+   and) start the store with a context whose first k polls see it live and every later poll sees it
+   cancelled, for ANY k: cancelled before the first block, between two blocks, before the read that finds
+   the end, in any of the unsealed fractions the loader replays one after the other - or never seen
+   cancelled (k >= the number of polls of the start-up; then it IS the ordinary start-up). `xrun` / `mxrun`
+   execute histories in which these events are interleaved, in any number and order, with all events of
+   the histories above (XOp o / MXOp o). Which bulks are acknowledged now depends on the state (an
+   interrupted start-up leaves the store down, a completed one up), so the statements use the lists the
+   model itself keeps: s_acked / ms_acked grow exactly where a bulk step acknowledges (Model.step HBulk,
+   ModelMulti.mstep0 MBulk: `++ [b]`), see the *_acked_sound theorems; s_tried / ms_tried likewise. *)
+
+(* Interrupted start-ups are harmless (single fraction): NO history with interrupted start-ups at any poll
+   count, crashes inside bulks, I/O faults, power losses, crashed start-ups and ordinary starts makes any
+   step fail (the store always comes back up), and whenever the store is up it shows exactly a list dur
+   of whole bulks, acked <= dur <= acked + interrupted: every acknowledged document is fetched byte for
+   byte and found by each token, an interrupted bulk is wholly there or wholly absent, fetch never fails,
+   search returns nothing else. *)
+Theorem C01_interrupted_startup_harmless :
+  forall dec_m dec_d h, wf_xhist dec_m dec_d h ->
+    exists s, xrun dec_m h = Ok s /\
+      forall p, s_proc s = Some p ->
+      exists dur,
+        incl (s_acked s) dur /\ incl dur (s_acked s ++ s_tried s) /\
+        (forall b d, In b dur -> In d (b_docs b) ->
+           fetch dec_d (s_disk s) p (d_id d) = Body (d_body d) /\
+           (forall t, In t (d_toks d) -> In (d_id d) (search p t))) /\
+        (forall id, (forall b d, In b dur -> In d (b_docs b) -> d_id d <> id) ->
+           fetch dec_d (s_disk s) p id = Absent /\ (forall t, ~ In id (search p t))) /\
+        (forall id, fetch dec_d (s_disk s) p id <> FetchErr) /\
+        (forall t id, In id (search p t) ->
+           exists b d, In b dur /\ In d (b_docs b) /\ d_id d = id /\ In t (d_toks d)).
+Proof. exact xdurable_char. Qed.
+Print Assumptions C01_interrupted_startup_harmless.
+
+(* ... and it changes no file: in every reachable state s, for every k, the interrupted start-up does not
+   fail and either leaves the store down with BOTH FILES BYTE-IDENTICAL (nothing truncated, nothing
+   removed, nothing acknowledged or forgotten, no file operation logged), or nobody saw the cancellation
+   and it is exactly the ordinary start-up. *)
+Theorem C01_interrupted_startup_keeps_files :
+  forall dec_m dec_d h s k, wf_xhist dec_m dec_d h -> xrun dec_m h = Ok s ->
+    exists s', xstep dec_m s (XStartIntr k) = Ok s' /\
+      ((s_proc s' = None /\ s_disk s' = s_disk s /\ s_acked s' = s_acked s /\ s_tried s' = s_tried s /\
+        s_ops s' = s_ops s) \/ step dec_m s HRestart = Ok s').
+Proof. exact xintr_reachable. Qed.
+Print Assumptions C01_interrupted_startup_keeps_files.
+
+(* the model's list of acknowledged bulks is the right one: a bulk submitted while the store is up is in
+   s_acked of every later state *)
+Theorem C01_interrupted_acked_sound :
+  forall dec_m h1 b h2 s1 p s,
+    xrun dec_m h1 = Ok s1 -> s_proc s1 = Some p ->
+    xrun dec_m (h1 ++ XOp (HBulk b) :: h2) = Ok s -> In b (s_acked s).
+Proof. exact xacked_sound. Qed.
+Print Assumptions C01_interrupted_acked_sound.
+
+(* The same over the store's multi-fraction life: interrupted start-ups at any poll count - in the loader:
+   before / inside / after the replay of each unsealed fraction - interleaved with rotation, sealing and
+   all crashes inside them: no step fails, and whenever the store is up no fraction is served twice and the
+   documents shown over all fractions are exactly those of a list dur of whole bulks, acked <= dur <=
+   acked + interrupted. *)
+Theorem C01_interrupted_startup_harmless_multi :
+  forall dec_m dec_d h, wf_mxhist dec_m dec_d h ->
+    exists s, mxrun dec_m dec_d h = Ok s /\
+      forall mp, ms_proc s = Some mp ->
+      NoDup (map fst (mp_fracs mp)) /\
+      exists dur,
+        incl (ms_acked s) dur /\ incl dur (ms_acked s ++ ms_tried s) /\
+        (forall b d, In b dur -> In d (b_docs b) ->
+           mfetch dec_d (ms_dirs s) mp (d_id d) = Body (d_body d) /\
+           (forall t, In t (d_toks d) -> In (d_id d) (msearch mp t))) /\
+        (forall id, (forall b d, In b dur -> In d (b_docs b) -> d_id d <> id) ->
+           mfetch dec_d (ms_dirs s) mp id = Absent /\ (forall t, ~ In id (msearch mp t))) /\
+        (forall id, mfetch dec_d (ms_dirs s) mp id <> FetchErr) /\
+        (forall t id, In id (msearch mp t) ->
+           exists b d, In b dur /\ In d (b_docs b) /\ d_id d = id /\ In t (d_toks d)).
+Proof. exact mxdurable_char. Qed.
+Print Assumptions C01_interrupted_startup_harmless_multi.
+
+(* What an interrupted start-up (one that leaves the store down; mxstep = mfreeze after mxstep0) does to
+   the files, in ANY state: no fraction is created, nothing is acknowledged or forgotten, no operation is
+   logged, and every fraction is either untouched or has had a prefix of p1 ++ p2 of the plan the ordinary
+   start-up executes on it applied (p1 = loop 1 of loader.load: removal of a complete sealed form's leftover
+   .meta/.docs, re-opening of an unsealed fraction; p2 = truncation of the unreadable tails / removal of a
+   fraction that holds nothing, only for fractions whose replay completed before the cancellation) - never
+   an operation of p3 (sealing), never a rotation. These are crash states of the ordinary start-up
+   (MRestartCrash), which C01_restart_total_multi already covers. *)
+Theorem C01_interrupted_startup_files_multi :
+  forall dec_m dec_d s k s',
+    mxstep0 dec_m dec_d s (MXStartIntr k) = Ok s' -> ms_proc s' = None ->
+    ms_next s' = ms_next s /\ ms_acked s' = ms_acked s /\ ms_tried s' = ms_tried s /\ ms_ops s' = ms_ops s /\
+    exists pls, plans_of dec_m dec_d (ms_dirs s) (ms_next s) (seq 0 (ms_next s)) = Ok pls /\
+      forall i, (ms_dirs s' i = ms_dirs s i) \/
+                (exists pl c, In (i, pl) pls /\ c <= length (p1 pl) + length (p2 pl) /\
+                              ms_dirs s' i = lrun (firstn c (p1 pl ++ p2 pl)) (ms_dirs s i)).
+Proof. exact mxstep_intr_files. Qed.
+Print Assumptions C01_interrupted_startup_files_multi.
+
+Theorem C01_interrupted_acked_sound_multi :
+  forall dec_m dec_d h1 b h2 s1 mp s,
+    mxrun dec_m dec_d h1 = Ok s1 -> ms_proc s1 = Some mp ->
+    mxrun dec_m dec_d (h1 ++ MXOp (MBulk b) :: h2) = Ok s -> In b (ms_acked s).
+Proof. exact mxacked_sound. Qed.
+Print Assumptions C01_interrupted_acked_sound_multi.
+
+(* ---------- non-vacuity: five acknowledged bulks, unclean stop, a start-up interrupted after k polls, an
+   ordinary start (xi_hist k); the same interleaved with a crash inside a bulk, a power loss and further
+   ingestion (xi_hist2); two unsealed fractions at an interrupted start-up of the loader (xm_hist k) ---------- *)
+Example C01_interrupted_nonvacuous :
+  (forall k, wf_xhist xdm xdd (xi_hist k)) /\ (forall k k', wf_xhist xdm xdd (xi_hist2 k k')) /\
+  (forall k, wf_mxhist wdm wdd (xm_hist k)) /\
+  xfinal_acked (xrun xdm (xi_hist 2)) = xbs /\
+  all5 (xfinal_fetch (xrun xdm (xi_hist 0))) = bodies5 /\
+  all5 (xfinal_fetch (xrun xdm (xi_hist 2))) = bodies5 /\
+  all5 (xfinal_fetch (xrun xdm (xi_hist 5))) = bodies5 /\
+  xfinal_up (xrun xdm (firstn 8 (xi_hist 5))) = Some false /\
+  xfinal_up (xrun xdm (firstn 8 (xi_hist 6))) = Some true /\
+  xm_acked (mxrun wdm wdd (xm_hist 1)) = [wb1; wb2; wb3] /\
+  xm_up (mxrun wdm wdd (firstn 6 (xm_hist 3))) = Some false /\
+  xm_up (mxrun wdm wdd (firstn 6 (xm_hist 4))) = Some true.
+Proof.
+  destruct xi_harmless as (A & B & C & D & E & _ & F & _). destruct xm_harmless as (G & _ & H & _ & _ & I & _).
+  split; [exact xi_wf |]. split; [exact xi_wf2 |]. split; [exact xm_wf |].
+  repeat (split; [assumption |]). assumption.
+Qed.
+
+(* ---------- the seeded variant (round-5 seeds C01-m10 / C15-m9; restart_ctx true / xrun_t1): the cancellation
+   branch leaves the loop, dropUnreplayedTail runs with the positions of the PARTIAL replay, and only then
+   is the cancellation returned. Five acknowledged bulks, the start-up interrupted after 2 blocks: the next
+   start serves 2 of them; interrupted before the first block: both files are cut to 0 and the next start
+   serves nothing. The history is well formed and acknowledges all five bulks. ---------- *)
+Example C01_interrupted_truncating_variant_refuted :
+  wf_xhist xdm xdd (xi_hist 2) /\ xfinal_acked (xrun xdm (xi_hist 2)) = [xb1; xb2; xb3; xb4; xb5] /\
+  all5 (xfinal_fetch (xrun_t1 xdm (xi_hist 2))) =
+    [Some (Body (d_body xd1)); Some (Body (d_body xd2)); Some Absent; Some Absent; Some Absent] /\
+  all5 (xfinal_fetch (xrun_t1 xdm (xi_hist 0))) = [Some Absent; Some Absent; Some Absent; Some Absent; Some Absent] /\
+  xfinal_lens (xrun_t1 xdm (firstn 8 (xi_hist 0))) = Some (0, 0).
+Proof.
+  destruct xi_harmless as (A & _). destruct xi_seeded_loses as (B & C & D).
+  split; [apply xi_wf |]. split; [exact A |]. split; [exact B |]. split; [exact C | exact D].
 Qed.
